@@ -8,6 +8,8 @@ WHAT = {
     "TVAL": "reference summaries of what a term value hands to a functor (value, source point, line, column) and of how a "
             "source point prints",
     "UTIL": "reference summaries of the string helpers, the default term functors and the option setters",
+    "OVL": "reference summaries of the convenience overloads of parse / context_parse (every parameter handed on unchanged, the "
+           "missing ones defaulted)",
     "NAMEFILL": "reference summaries of how the parser's name / id / precedence tables are filled and symbols resolved",
     "GAPI2": "reference summaries of how grammar objects are built (term / nterm / rule constructors and operators, "
              "literal-to-term conversion, parse_state and reductor set-up)",
